@@ -14,30 +14,76 @@ EXTENDS Integers, Sequences, FiniteSets, SequencesExt, TLC
 (* 32-bit words are kept as 4 bytes <<b3, b2, b1, b0>> (b3 most significant): TLC integers   *)
 (* are 32-bit signed.                                                                        *)
 
-RECURSIVE XorN(_, _, _)
-XorN(x, y, n) == IF n = 0 THEN 0 ELSE ((x + y) % 2) + 2 * XorN(x \div 2, y \div 2, n - 1)
+\* exclusive or of two bytes, without recursion (so that TLC pre-computes the tables below once)
+XB(x, y, k) == ((x \div k) + (y \div k)) % 2
+Xor8A(x, y) == XB(x, y, 1) + 2 * XB(x, y, 2) + 4 * XB(x, y, 4) + 8 * XB(x, y, 8) + 16 * XB(x, y, 16)
+               + 32 * XB(x, y, 32) + 64 * XB(x, y, 64) + 128 * XB(x, y, 128)
+\* exclusive or of two nibbles x, y at index 16x + y + 1, written out; Xor8 is what the fold uses
+X4 == <<
+  0, 1, 2, 3, 4, 5, 6, 7, 8, 9, 10, 11, 12, 13, 14, 15, 1, 0, 3, 2, 5, 4, 7, 6, 9, 8, 11, 10, 13, 12, 15, 14,
+  2, 3, 0, 1, 6, 7, 4, 5, 10, 11, 8, 9, 14, 15, 12, 13, 3, 2, 1, 0, 7, 6, 5, 4, 11, 10, 9, 8, 15, 14, 13, 12,
+  4, 5, 6, 7, 0, 1, 2, 3, 12, 13, 14, 15, 8, 9, 10, 11, 5, 4, 7, 6, 1, 0, 3, 2, 13, 12, 15, 14, 9, 8, 11, 10,
+  6, 7, 4, 5, 2, 3, 0, 1, 14, 15, 12, 13, 10, 11, 8, 9, 7, 6, 5, 4, 3, 2, 1, 0, 15, 14, 13, 12, 11, 10, 9, 8,
+  8, 9, 10, 11, 12, 13, 14, 15, 0, 1, 2, 3, 4, 5, 6, 7, 9, 8, 11, 10, 13, 12, 15, 14, 1, 0, 3, 2, 5, 4, 7, 6,
+  10, 11, 8, 9, 14, 15, 12, 13, 2, 3, 0, 1, 6, 7, 4, 5, 11, 10, 9, 8, 15, 14, 13, 12, 3, 2, 1, 0, 7, 6, 5, 4,
+  12, 13, 14, 15, 8, 9, 10, 11, 4, 5, 6, 7, 0, 1, 2, 3, 13, 12, 15, 14, 9, 8, 11, 10, 5, 4, 7, 6, 1, 0, 3, 2,
+  14, 15, 12, 13, 10, 11, 8, 9, 6, 7, 4, 5, 2, 3, 0, 1, 15, 14, 13, 12, 11, 10, 9, 8, 7, 6, 5, 4, 3, 2, 1, 0>>
+Xor8(a, b) == 16 * X4[(a \div 16) * 16 + (b \div 16) + 1] + X4[(a % 16) * 16 + (b % 16) + 1]
+XorAgree == \A a, b \in 0..255 : Xor8(a, b) = Xor8A(a, b)
 
-XorTab == TLCEval([a \in 0..255 |-> TLCEval([b \in 0..255 |-> XorN(a, b, 8)])])
-Xor8(a, b) == XorTab[a][b]
-
-\* one step of the bitwise CRC-32 (reflected polynomial EDB88320) on <<hi16, lo16>>
+\* one step of the bitwise CRC-32 (reflected polynomial EDB88320) on <<b3, b2, b1, b0>>
 CrcShift(c) ==
-  LET hi == c[1] \div 2
-      lo == (c[2] \div 2) + (c[1] % 2) * 32768
-  IN IF c[2] % 2 = 1 THEN <<XorN(hi, 60856, 16), XorN(lo, 33568, 16)>>   \* EDB8 8320
-     ELSE <<hi, lo>>
-RECURSIVE CrcIter(_, _)
-CrcIter(c, k) == IF k = 0 THEN c ELSE CrcIter(CrcShift(c), k - 1)
-CrcTab16 == TLCEval([n \in 0..255 |-> CrcIter(<<0, n>>, 8)])
-\* the table as four byte planes
-T3 == TLCEval([n \in 0..255 |-> CrcTab16[n][1] \div 256])
-T2 == TLCEval([n \in 0..255 |-> CrcTab16[n][1] % 256])
-T1 == TLCEval([n \in 0..255 |-> CrcTab16[n][2] \div 256])
-T0 == TLCEval([n \in 0..255 |-> CrcTab16[n][2] % 256])
+  LET s3 == c[1] \div 2
+      s2 == (c[2] \div 2) + (c[1] % 2) * 128
+      s1 == (c[3] \div 2) + (c[2] % 2) * 128
+      s0 == (c[4] \div 2) + (c[3] % 2) * 128
+  IN IF c[4] % 2 = 1 THEN <<Xor8A(s3, 237), Xor8A(s2, 184), Xor8A(s1, 131), Xor8A(s0, 32)>>   \* ED B8 83 20
+     ELSE <<s3, s2, s1, s0>>
+CrcTab == [n \in 0..255 |-> CrcShift(CrcShift(CrcShift(CrcShift(CrcShift(CrcShift(CrcShift(CrcShift(<<0, 0, 0, n>>))))))))]
+\* The table as four byte planes, written out (TLC would re-evaluate CrcTab[n] on every use);
+\* index n+1 holds the entry of n.  TablesAgree (checked by MC_Footer) ties them to CrcTab.
+T3 == <<
+  0, 119, 238, 153, 7, 112, 233, 158, 14, 121, 224, 151, 9, 126, 231, 144, 29, 106, 243, 132, 26, 109, 244, 131, 19, 100, 253, 138, 20, 99, 250, 141,
+  59, 76, 213, 162, 60, 75, 210, 165, 53, 66, 219, 172, 50, 69, 220, 171, 38, 81, 200, 191, 33, 86, 207, 184, 40, 95, 198, 177, 47, 88, 193, 182,
+  118, 1, 152, 239, 113, 6, 159, 232, 120, 15, 150, 225, 127, 8, 145, 230, 107, 28, 133, 242, 108, 27, 130, 245, 101, 18, 139, 252, 98, 21, 140, 251,
+  77, 58, 163, 212, 74, 61, 164, 211, 67, 52, 173, 218, 68, 51, 170, 221, 80, 39, 190, 201, 87, 32, 185, 206, 94, 41, 176, 199, 89, 46, 183, 192,
+  237, 154, 3, 116, 234, 157, 4, 115, 227, 148, 13, 122, 228, 147, 10, 125, 240, 135, 30, 105, 247, 128, 25, 110, 254, 137, 16, 103, 249, 142, 23, 96,
+  214, 161, 56, 79, 209, 166, 63, 72, 216, 175, 54, 65, 223, 168, 49, 70, 203, 188, 37, 82, 204, 187, 34, 85, 197, 178, 43, 92, 194, 181, 44, 91,
+  155, 236, 117, 2, 156, 235, 114, 5, 149, 226, 123, 12, 146, 229, 124, 11, 134, 241, 104, 31, 129, 246, 111, 24, 136, 255, 102, 17, 143, 248, 97, 22,
+  160, 215, 78, 57, 167, 208, 73, 62, 174, 217, 64, 55, 169, 222, 71, 48, 189, 202, 83, 36, 186, 205, 84, 35, 179, 196, 93, 42, 180, 195, 90, 45>>
+T2 == <<
+  0, 7, 14, 9, 109, 106, 99, 100, 219, 220, 213, 210, 182, 177, 184, 191, 183, 176, 185, 190, 218, 221, 212, 211, 108, 107, 98, 101, 1, 6, 15, 8,
+  110, 105, 96, 103, 3, 4, 13, 10, 181, 178, 187, 188, 216, 223, 214, 209, 217, 222, 215, 208, 180, 179, 186, 189, 2, 5, 12, 11, 111, 104, 97, 102,
+  220, 219, 210, 213, 177, 182, 191, 184, 7, 0, 9, 14, 106, 109, 100, 99, 107, 108, 101, 98, 6, 1, 8, 15, 176, 183, 190, 185, 221, 218, 211, 212,
+  178, 181, 188, 187, 223, 216, 209, 214, 105, 110, 103, 96, 4, 3, 10, 13, 5, 2, 11, 12, 104, 111, 102, 97, 222, 217, 208, 215, 179, 180, 189, 186,
+  184, 191, 182, 177, 213, 210, 219, 220, 99, 100, 109, 106, 14, 9, 0, 7, 15, 8, 1, 6, 98, 101, 108, 107, 212, 211, 218, 221, 185, 190, 183, 176,
+  214, 209, 216, 223, 187, 188, 181, 178, 13, 10, 3, 4, 96, 103, 110, 105, 97, 102, 111, 104, 12, 11, 2, 5, 186, 189, 180, 179, 215, 208, 217, 222,
+  100, 99, 106, 109, 9, 14, 7, 0, 191, 184, 177, 182, 210, 213, 220, 219, 211, 212, 221, 218, 190, 185, 176, 183, 8, 15, 6, 1, 101, 98, 107, 108,
+  10, 13, 4, 3, 103, 96, 105, 110, 209, 214, 223, 216, 188, 187, 178, 181, 189, 186, 179, 180, 208, 215, 222, 217, 102, 97, 104, 111, 11, 12, 5, 2>>
+T1 == <<
+  0, 48, 97, 81, 196, 244, 165, 149, 136, 184, 233, 217, 76, 124, 45, 29, 16, 32, 113, 65, 212, 228, 181, 133, 152, 168, 249, 201, 92, 108, 61, 13,
+  32, 16, 65, 113, 228, 212, 133, 181, 168, 152, 201, 249, 108, 92, 13, 61, 48, 0, 81, 97, 244, 196, 149, 165, 184, 136, 217, 233, 124, 76, 29, 45,
+  65, 113, 32, 16, 133, 181, 228, 212, 201, 249, 168, 152, 13, 61, 108, 92, 81, 97, 48, 0, 149, 165, 244, 196, 217, 233, 184, 136, 29, 45, 124, 76,
+  97, 81, 0, 48, 165, 149, 196, 244, 233, 217, 136, 184, 45, 29, 76, 124, 113, 65, 16, 32, 181, 133, 212, 228, 249, 201, 152, 168, 61, 13, 92, 108,
+  131, 179, 226, 210, 71, 119, 38, 22, 11, 59, 106, 90, 207, 255, 174, 158, 147, 163, 242, 194, 87, 103, 54, 6, 27, 43, 122, 74, 223, 239, 190, 142,
+  163, 147, 194, 242, 103, 87, 6, 54, 43, 27, 74, 122, 239, 223, 142, 190, 179, 131, 210, 226, 119, 71, 22, 38, 59, 11, 90, 106, 255, 207, 158, 174,
+  194, 242, 163, 147, 6, 54, 103, 87, 74, 122, 43, 27, 142, 190, 239, 223, 210, 226, 179, 131, 22, 38, 119, 71, 90, 106, 59, 11, 158, 174, 255, 207,
+  226, 210, 131, 179, 38, 22, 71, 119, 106, 90, 11, 59, 174, 158, 207, 255, 242, 194, 147, 163, 54, 6, 87, 103, 122, 74, 27, 43, 190, 142, 223, 239>>
+T0 == <<
+  0, 150, 44, 186, 25, 143, 53, 163, 50, 164, 30, 136, 43, 189, 7, 145, 100, 242, 72, 222, 125, 235, 81, 199, 86, 192, 122, 236, 79, 217, 99, 245,
+  200, 94, 228, 114, 209, 71, 253, 107, 250, 108, 214, 64, 227, 117, 207, 89, 172, 58, 128, 22, 181, 35, 153, 15, 158, 8, 178, 36, 135, 17, 171, 61,
+  144, 6, 188, 42, 137, 31, 165, 51, 162, 52, 142, 24, 187, 45, 151, 1, 244, 98, 216, 78, 237, 123, 193, 87, 198, 80, 234, 124, 223, 73, 243, 101,
+  88, 206, 116, 226, 65, 215, 109, 251, 106, 252, 70, 208, 115, 229, 95, 201, 60, 170, 16, 134, 37, 179, 9, 159, 14, 152, 34, 180, 23, 129, 59, 173,
+  32, 182, 12, 154, 57, 175, 21, 131, 18, 132, 62, 168, 11, 157, 39, 177, 68, 210, 104, 254, 93, 203, 113, 231, 118, 224, 90, 204, 111, 249, 67, 213,
+  232, 126, 196, 82, 241, 103, 221, 75, 218, 76, 246, 96, 195, 85, 239, 121, 140, 26, 160, 54, 149, 3, 185, 47, 190, 40, 146, 4, 167, 49, 139, 29,
+  176, 38, 156, 10, 169, 63, 133, 19, 130, 20, 174, 56, 155, 13, 183, 33, 212, 66, 248, 110, 205, 91, 225, 119, 230, 112, 202, 92, 255, 105, 211, 69,
+  120, 238, 84, 194, 97, 247, 77, 219, 74, 220, 102, 240, 83, 197, 127, 233, 28, 138, 48, 166, 5, 147, 41, 191, 46, 184, 2, 148, 55, 161, 27, 141>>
+TablesAgree == \A n \in 0..255 : CrcTab[n] = <<T3[n + 1], T2[n + 1], T1[n + 1], T0[n + 1]>>
+
 
 CrcByte(c, b) ==
-  LET i == XorTab[c[4]][b]
-  IN <<T3[i], XorTab[c[1]][T2[i]], XorTab[c[2]][T1[i]], XorTab[c[3]][T0[i]]>>
+  LET i == Xor8(c[4], b) + 1
+  IN <<T3[i], Xor8(c[1], T2[i]), Xor8(c[2], T1[i]), Xor8(c[3], T0[i])>>
 
 
 \* CRC-32 (IEEE 802.3, as computed by crc32fast) of a byte sequence, as <<b3,b2,b1,b0>>
@@ -91,15 +137,15 @@ WellFormedAbs(e) == e.ok /\ Len(e.payload) = 5
 
 OpenRead(file) ==
   LET e == ExtractFooter(file) IN
-  IF ~WellFormedAbs(e) THEN "Err"
-  ELSE IF ~Supported(e.payload[1]) THEN "Incompatible"
-  ELSE e.body
+  IF ~WellFormedAbs(e) THEN [st |-> "Err"]
+  ELSE IF ~Supported(e.payload[1]) THEN [st |-> "Incompatible"]
+  ELSE [st |-> "ok", body |-> e.body]
 
-\* TRUE / FALSE / "Err"
+\* "ok" / "bad" / "Err"
 Validate(file) ==
   LET e == ExtractFooter(file) IN
   IF ~WellFormedAbs(e) THEN "Err"
-  ELSE Crc32(e.body) = Sub(e.payload, 2, 5)
+  ELSE IF Crc32(e.body) = Sub(e.payload, 2, 5) THEN "ok" ELSE "bad"
 
 \* damage
 FlipByte(b, k) == IF (b \div (2 ^ k)) % 2 = 1 THEN b - 2 ^ k ELSE b + 2 ^ k
@@ -112,7 +158,7 @@ DeleteAt(file, pos, k) == Sub(file, 1, pos - 1) \o Sub(file, pos + k, Len(file))
 
 \* what the property demands of a checker on a damaged copy of a file with body length bl:
 \* damage that changes the body must be detected
-Detected(res) == res # TRUE
+Detected(res) == res # "ok"
 
 -----------------------------------------------------------------------------
 (* Part 2 - the write pipeline.                                                              *)
@@ -228,6 +274,6 @@ FlushComplete == (phase = "open" /\ clean) => sink = user
 ClosedFile ==
   phase = "closed" =>
     /\ sink = AbsFile(CurrentVersion, user)
-    /\ OpenRead(sink) = user
-    /\ Validate(sink) = TRUE
+    /\ OpenRead(sink) = [st |-> "ok", body |-> user]
+    /\ Validate(sink) = "ok"
 =============================================================================
